@@ -1,6 +1,116 @@
+(* C12 -- the instance cache answers every lookup once and never forgets good data on error.
+
+   Model/InstanceCache.v is a labelled transition system whose labels are the atomic steps of
+   CachedCloudProvider.Run (one select arm + the refill of its two send registers), Peek, and the
+   lookup dispatcher (run / doLookup): Submit s | SendLookup | Batch res err | HandleInfo now | Return |
+   Refresh t order | Peek s now.  [run (step c) init ls = Some st] says that [ls] is a history of the
+   component from its initial state, for cache options / batch limit [c]; every theorem below is over all
+   of them (any interleaving of clients, dispatcher, ticker and consumer; any provider answers; any times).
+   The state carries the history (never read by [step]): [submitted], [requeued] (sources queued by refresh
+   ticks), [batches] (every provider call: ips, returned map, error?), [handled] (infos given to
+   handleInstanceInfo), [evicted], [delivered] (infos received by the consumer on InfoSource()), newest first.
+
+     answers ips res  = map (λ ip, (ip, res_get res ip)) ips        what doLookup emits for one provider call
+     due_answers st   = the answers of all provider calls so far     (concat over [batches st])
+     queried st       = all positions of all provider calls so far
+     waiting st       = pending st ++ lookup register ++ to_lookup st  accepted, not yet in a provider call
+     in_transit st    = inflight st ++ to_return st ++ return register  produced, not yet at the consumer
+     serves st s i    = Peek(s) would return (i, true)
+     positive_entry (s,h) = h_inst h is an instance;  negative_entry (s,h) = h_inst h is nil *)
 From GS Require Import Base.Bytes Base.LTS Model.InstanceCache Proofs.InstanceCache.
 From stdpp Require Import gmap.
+Local Open Scope Z_scope.
 
-Theorem C12_answers_length : forall ips res, length (answers ips res) = length ips.
-Proof. exact answers_length. Qed.
-Print Assumptions C12_answers_length.
+(* doLookup emits exactly one InstanceInfo per position of the batch, the n-th for the n-th source, carrying
+   whatever the returned map holds for it (nil if absent) -- for a full, partial, empty or nil map, with or
+   without error (the error flag of a [Batch] is recorded and influences nothing).  In every history each
+   such answer goes through handleInstanceInfo exactly once and reaches the consumer exactly once: what has
+   been produced is, as a multiset, what has been delivered plus what is still on its way; once nothing is
+   on its way, the consumer has received exactly one answer per queried position. *)
+Theorem C12_one_answer_per_query :
+  (forall (ips : list source) (res : result),
+     length (answers ips res) = length ips /\
+     forall (n : nat) ip, ips !! n = Some ip -> answers ips res !! n = Some (ip, res_get res ip)) /\
+  forall (c : config) (ls : list label) (st : state),
+    run (step c) init ls = Some st ->
+    due_answers st ≡ₚ handled st ++ inflight st /\
+    due_answers st ≡ₚ delivered st ++ in_transit st /\
+    (in_transit st = [] -> delivered st ≡ₚ due_answers st).
+Proof. exact one_answer_per_query. Qed.
+Print Assumptions C12_one_answer_per_query.
+
+(* Every source a client submitted or a refresh tick queued is waiting or has been one position of exactly
+   one provider call (multiset equality: duplicates are queried as often as they were accepted); once
+   nothing waits, the queried positions are exactly the accepted sources.  For a batch limit >= 1 every
+   provider call has between 1 and limit sources. *)
+Theorem C12_all_queried :
+  forall (c : config) (ls : list label) (st : state),
+    run (step c) init ls = Some st ->
+    submitted st ++ requeued st ≡ₚ waiting st ++ queried st /\
+    (waiting st = [] -> queried st ≡ₚ submitted st ++ requeued st) /\
+    (1 <= c_limit c -> Forall (λ b, 1 <= Z.of_nat (length b.1.1) <= c_limit c) (batches st)).
+Proof. exact all_queried. Qed.
+Print Assumptions C12_all_queried.
+
+(* From ANY state on: over any further history the eviction log grows by [ev] and the handled log by [han];
+   a source s that served instance i and is not among the evicted still serves an instance, namely that of
+   the newest positive answer for s in [han] and i itself if there is none
+   ([latest_positive s han i]) -- in particular i, if every answer handled for s since then was a failed /
+   empty one, whatever refresh ticks, peeks and other sources' lookups happened in between. *)
+Theorem C12_keeps_good_data :
+  forall (c : config) (st : state) (ls : list label) (st' : state),
+    run (step c) st ls = Some st' ->
+    exists ev han,
+      evicted st' = ev ++ evicted st /\ handled st' = han ++ handled st /\
+      forall s i, serves st s i -> s ∉ ev ->
+        serves st' s (latest_positive s han i) /\
+        ((forall i', (s, Some i') ∉ han) -> serves st' s i).
+Proof. exact keeps_good_data. Qed.
+Print Assumptions C12_keeps_good_data.
+
+(* Only a refresh tick evicts: any other step leaves the eviction log alone and keeps every cache key. *)
+Theorem C12_evict_only_on_refresh :
+  forall (c : config) (st : state) (l : label) (st' : state),
+    step c st l = Some st' -> (forall t order, l <> Refresh t order) ->
+    evicted st' = evicted st /\ forall s, is_Some (cache st !! s) -> is_Some (cache st' !! s).
+Proof. exact evict_only_on_refresh. Qed.
+Print Assumptions C12_evict_only_on_refresh.
+
+(* A refresh tick at time t (from any state) removes exactly the entries whose last access lies MORE than the
+   idle period back (now - lastAccess > idle; equality keeps the entry), leaves the others untouched, and
+   logs each removed key once. *)
+Theorem C12_evict_idle :
+  forall (c : config) (st : state) (t : Z) (order : list source) (st' : state),
+    step c st (Refresh t order) = Some st' ->
+    (forall s h, cache st' !! s = Some h <-> cache st !! s = Some h /\ ¬ (c_idle c < t - h_access h)) /\
+    exists ev, evicted st' = ev ++ evicted st /\ NoDup ev /\
+      forall s, s ∈ ev <-> exists h, cache st !! s = Some h /\ c_idle c < t - h_access h.
+Proof. exact evict_idle. Qed.
+Print Assumptions C12_evict_idle.
+
+(* ... and queues for lookup exactly the remaining entries whose expiry lies strictly before t
+   (t.After(expires); equality does not re-query), each once, in the order Go's map iteration chose. *)
+Theorem C12_requery_expired :
+  forall (c : config) (st : state) (t : Z) (order : list source) (st' : state),
+    step c st (Refresh t order) = Some st' ->
+    requeued st' = rev order ++ requeued st /\
+    waiting st' ≡ₚ order ++ waiting st /\
+    NoDup order /\
+    forall s, s ∈ order <->
+      exists h, cache st !! s = Some h /\ ¬ (c_idle c < t - h_access h) /\ h_expires h < t.
+Proof. exact requery_expired. Qed.
+Print Assumptions C12_requery_expired.
+
+(* In every reachable state the gauges cloudprovider.cache_positive / cache_negative (uint64 counters) equal
+   the numbers of entries holding an instance / holding nil, modulo 2^64 -- an underflow would read
+   2^64-1 -- hence exactly, for any cache of fewer than 2^64 entries. *)
+Theorem C12_gauges :
+  forall (c : config) (ls : list label) (st : state),
+    run (step c) init ls = Some st ->
+    gauge_pos st = Z.of_nat (size (filter positive_entry (cache st))) `mod` 2 ^ 64 /\
+    gauge_neg st = Z.of_nat (size (filter negative_entry (cache st))) `mod` 2 ^ 64 /\
+    (Z.of_nat (size (cache st)) < 2 ^ 64 ->
+     gauge_pos st = Z.of_nat (size (filter positive_entry (cache st))) /\
+     gauge_neg st = Z.of_nat (size (filter negative_entry (cache st)))).
+Proof. exact gauges. Qed.
+Print Assumptions C12_gauges.
